@@ -515,6 +515,8 @@ def plan_C03(tier):
     qs += shape_variant_queries(3, 1, 6 if tier == "quick" else 8, variants=("full",), scalars=("T", "S1"), witness_every=4)
     qs += shape_variant_queries(3, 2, 5 if tier == "quick" else 7, variants=("full",), scalars=("T", "S1"), witness_every=4)
     qs += shape_variant_queries(3, 2, 4 if tier == "quick" else 5, variants=("full",), scalars=("B1", "D"), witness_every=4)
+    qs += shape_variant_queries(3, 2, 4 if tier == "quick" else 5, variants=("full",), scalars=("T", "F"), witness_every=4)
+    qs += shape_variant_queries(3, 1, 5 if tier == "quick" else 6, variants=("full",), scalars=("T", "F"), witness_every=4)
     # getter neutrality from an arbitrary state
     qs.append(step_query(3, 15, 6, 2, checks="func"))
     # every length width / integer width with a symbolic claimed buffer size (lengths up to INT32_MAX)
@@ -733,14 +735,13 @@ def plan_C08(tier):
     # arbitrary bytes, parser-driven scripts that end by leaving the root
     if tier == "quick":
         for n in (2, 3, 4, 5):
-            if valid_exists(1, n):
-                qs.append(script_query(8, ["GO", "LO"], n, 2, 1, mode=2))
+            # (no valid object of 3 or 4 bytes exists: the witness of those queries is a rejected traversal, e.g. 40 41 41)
+            qs.append(script_query(8, ["GO", "LO"], n, 2, 1, mode=2, extra=None if valid_exists(1, n) else {"WIT_REJECT2": 1}))
             qs.append(script_query(8, ["GA", "LA"], n, 2, 2, mode=2))
         more = [(["GA", "N", "LA"], 4, 2), (["GO", "N", "LO"], 5, 1)]
     else:
         for n in range(2, 11):
-            if valid_exists(1, n):
-                qs.append(script_query(8, ["GO", "LO"], n, 2, 1, mode=2))
+            qs.append(script_query(8, ["GO", "LO"], n, 2, 1, mode=2, extra=None if valid_exists(1, n) else {"WIT_REJECT2": 1}))
             qs.append(script_query(8, ["GA", "LA"], n, 2, 2, mode=2))
         more = [(["GA", "N", "LA"], 6, 2), (["GO", "N", "LO"], 7, 1), (["GA", "N", "N", "LA"], 6, 2), (["GO", "N", "N", "LO"], 8, 1),
                 (["GA", "N", "GA", "LA", "LA"], 6, 2), (["GO", "N", "GO", "LO", "LO"], 7, 1), (["GA", "N", "RAW", "LA"], 6, 2),
@@ -1517,6 +1518,7 @@ def plan_C01_full(tier):
         q.name += ".D%d" % D
         qs.append(q)
     qs.append(leaf_query("check_boundary"))
+    qs += [biglen_query(1), biglen_query(2)]      # every length up to INT32_MAX, claimed size symbolic: spans stay inside, no payload read
     # reset / verify exactly AT the depth limit (depth == max_depth), state array of exactly max_depth entries
     for D in (1, 2, 3):
         node = Node("T")
@@ -1572,6 +1574,24 @@ def plan_C02_full(tier):
         qs.append(q)
     qs.append(leaf_query("parse_integer"))
     qs += [biglen_query(1), biglen_query(2)]
+    # truncated tokens: type byte concrete, k payload bytes (k < full width) symbolic, then the END: must be rejected
+    for tb, width, label in ((0x46, 8, "double"), (0x13, 8, "int64"), (0x12, 4, "int32"), (0x11, 2, "int16"), (0x16, 4, "strlen32"), (0x15, 2, "strlen16"),
+                             (0x1a, 4, "byteslen32"), (0x19, 2, "byteslen16"), (0x17, 8, "reserved17"), (0x1b, 8, "reserved1b")):
+        for k in (range(0, width + 1) if tier != "quick" else (0, width - 1, width)):
+            for root in (1, 2):
+                if tier == "quick" and root == 1 and k not in (width - 1,):
+                    continue
+                head = [0x42] if root == 2 else [0x40, 0x14, 0x00]
+                b = head + [tb] + [0] * k + [0x43 if root == 2 else 0x41]
+                m = [1] * len(head) + [1] + [0] * k + [1]
+                q = doc_query("C02", 1, len(b), 1, root, timeout=900)
+                q.defines.update({"SK_LEN": len(b), "SK_BYTES": ",".join(str(x) for x in b), "SK_MASK": ",".join(str(x) for x in m),
+                                  "WIT_VALID": 1 if (k == width and tb in (0x46, 0x13, 0x12, 0x11)) else 0})
+                q.name = "trunc.%s.k%d.%s" % (label, k, "obj" if root == 1 else "arr")
+                q.array_fs = True
+                q.tags.update({"family": "H-TOKEN", "what": "type byte 0x%02x followed by %d symbolic payload bytes and the END" % (tb, k)})
+                q.group = "h_doc.trunc"
+                qs.append(q)
     # verify on every tree shape with UNCONSTRAINED payload (names symbolic: order / duplicates decided by the solver,
     # the previous-name bookkeeping across nested containers included)
     from . import shapes
